@@ -27,7 +27,7 @@ from aioslsk import commands as C
 from aioslsk.events import (
     ConnectionStateChangedEvent, ScanCompleteEvent, SessionDestroyedEvent, SessionInitializedEvent)
 from aioslsk.exceptions import InvalidSessionError
-from aioslsk.network.connection import ConnectionState, ServerConnection
+from aioslsk.network.connection import ServerConnection
 from aioslsk.protocol import messages as M
 from aioslsk.protocol.primitives import PotentialParent, UserStats
 from aioslsk.user.model import TrackingState
@@ -464,7 +464,7 @@ def _run(world: World, plan):
     # ------------------------------------------------------------------ observation
     ctx = {
         'action_at': None, 'action_fired': False, 'stopped': False, 'stop_call': None, 'stop_return': None,
-        'stop_snapshot': None, 'losses': [], 'driver_fault_at': None,
+        'stop_snapshot': None, 'losses': [],
     }
     conn_events = []        # (t, state name, reason name) of the server connection, as reported by the client
     session_events = []     # (t, 'init'|'destroy', session object)
@@ -652,6 +652,9 @@ def _run(world: World, plan):
         if client.session is not None:
             world.violate('C16.reset', what='session', **facts)
         names = sorted(client.users.users)
+        if 'download' in pending and ctx.get('pending_applied'):
+            # a queued download outlives the session and is a reason of its own to know (and track) its peer
+            names = [n for n in names if n != PEER]
         if names:
             classes = sorted({'own' if n == OWN else 'friend' if n in friends else 'other' for n in names})
             world.violate('C16.reset', what='users', who=classes, **facts)
@@ -734,7 +737,6 @@ def _run(world: World, plan):
         if ctx['stopped']:
             return
         ctx['stopped'] = True
-        ctx['stop_at'] = loop.time()
         world.net.fired['client_stop'] += 1
 
         async def do_stop():
@@ -803,7 +805,7 @@ def _run(world: World, plan):
 
     # ------------------------------------------------------------------ clause (d)
     def classify(loss):
-        """'reconnect' | 'none' | 'either' | 'nothing' (the client did not lose the connection)."""
+        """What the statement demands after this loss: 'reconnect' | 'none' | 'either' (may go both ways)."""
         how = loss['how']
         conn = loss.get('conn')
         if how == 'requested':
